@@ -188,14 +188,27 @@ pub fn gen_tileset(rng: &mut Rng, sp: &Sprite, id: u32, cfg: &GenCfg) -> Tileset
         ext = Some((rng.u32(), rng.u32()));
     }
     let mut pixels = gen_pixels(rng, sp, (count * area) as usize);
-    // conventional empty tile 0 most of the time
-    if rng.chance(2, 3) {
+    // tile 0 is the empty tile of a well-formed tileset: fully transparent
+    {
         let bpp = sp.fmt.bpp();
+        let keep_rgb = rng.chance(1, 4);
         for k in 0..(area as usize) {
             match sp.fmt {
-                Fmt::Rgba => pixels[k * bpp..k * bpp + 4].copy_from_slice(&[0, 0, 0, 0]),
-                Fmt::Gray => pixels[k * bpp..k * bpp + 2].copy_from_slice(&[0, 0]),
-                Fmt::Indexed => {}
+                Fmt::Rgba => {
+                    if keep_rgb {
+                        pixels[k * bpp + 3] = 0
+                    } else {
+                        pixels[k * bpp..k * bpp + 4].copy_from_slice(&[0, 0, 0, 0])
+                    }
+                }
+                Fmt::Gray => {
+                    if keep_rgb {
+                        pixels[k * bpp + 1] = 0
+                    } else {
+                        pixels[k * bpp..k * bpp + 2].copy_from_slice(&[0, 0])
+                    }
+                }
+                Fmt::Indexed => pixels[k] = sp.transparent_index,
             }
         }
     }
@@ -219,6 +232,14 @@ pub fn gen_sprite(rng: &mut Rng, cfg: &GenCfg) -> (Sprite, PaletteProgram) {
     // tilesets
     let mut tileset_ids: Vec<u32> = Vec::new();
     if cfg.tilemaps && rng.chance(1, 2) {
+        // the empty tile needs the transparent index to be a palette entry
+        if fmt == Fmt::Indexed {
+            let pal = sp.palette.as_ref().unwrap();
+            if !pal.contains_key(&(sp.transparent_index as u32)) {
+                let usable: Vec<u8> = pal.keys().filter(|k| **k < 256).map(|k| *k as u8).collect();
+                sp.transparent_index = *rng.pick(&usable);
+            }
+        }
         let k = rng.range(1, 3) as usize;
         while tileset_ids.len() < k {
             let id = if rng.chance(3, 4) { tileset_ids.len() as u32 } else { *rng.pick(&[7u32, 255, 256, 65536, 0x7fff_ffff, 0xffff_ffff]) };
